@@ -132,6 +132,28 @@ SharedFnCases == {[nodes |-> <<SNode(1, k1[1], k1[2]), SNode(2, k2[1], k2[2])>>]
                      k1 \in SKinds, k2 \in SKinds}
             \cup {[nodes |-> <<SNode(1, k[1], k[2])>>] : k \in SKinds}
 
+\* (6) hand-built JOBS (no graph, no graph2job): single-output tasks made with TaskBuilder.from_callable(..).with_values(..)
+\*     ("from_callable": the signature defaults are recorded as static keyword values) or as raw TaskInstances ("raw"), edges
+\*     made by hand.  An "in" item among args / as a kwargs value is an edge into that position / keyword; `shadow` is the static
+\*     value that the task ALSO holds for every edge-fed position / keyword ("absent": none beyond what from_callable recorded).
+\*     The upstream value must win: the reference (Render of an "in" item) does not even look at shadow.
+Absent == [t |-> "absent", i |-> 0, s |-> ""]
+JNode(ins, args, kwargs, via, shadow) ==
+  [MkNodeH(1, 1, ins, 1, IntA(7), Terms(1), <<>>, <<>>) EXCEPT !.args = args, !.kwargs = kwargs] @@ [via |-> via, shadow |-> shadow]
+JSrc(j) == JNode(<<>>, <<IntA(6 + j)>>, <<>>, "raw", Absent)
+One == <<<<1, 0>>>>
+Two == <<<<1, 0>>, <<2, 0>>>>
+JobCases ==
+  {[job |-> TRUE, nodes |-> <<JSrc(1), JNode(One, <<>>, kw, "from_callable", sh)>>] :
+      kw \in {<<<<"k", InA(1)>>>>, <<<<"k", InA(1)>>, <<"z", StrA("s")>>>>, <<<<"k", IntA(5)>>, <<"z", InA(1)>>>>}, sh \in {Absent, IntA(99), NoneA, IntA(0)}}
+  \cup {[job |-> TRUE, nodes |-> <<JSrc(1), JSrc(2), JNode(Two, <<>>, kw, "from_callable", sh)>>] :
+      kw \in {<<<<"k", InA(1)>>, <<"z", InA(2)>>>>, <<<<"k", InA(2)>>, <<"z", InA(1)>>>>}, sh \in {Absent, IntA(99), NoneA}}
+  \cup {[job |-> TRUE, nodes |-> <<JSrc(1), JNode(One, ak[1], ak[2], "raw", sh)>>] :
+      ak \in {<<<<InA(1)>>, <<>>>>, <<<<IntA(7), InA(1)>>, <<>>>>, <<<<InA(1), IntA(7)>>, <<<<"k", IntA(5)>>>>>>,
+              <<<<IntA(7)>>, <<<<"k", InA(1)>>>>>>, <<<<>>, <<<<"k", InA(1)>>, <<"z", StrA("s")>>>>>>}, sh \in {Absent, IntA(99), NoneA, IntA(0)}}
+  \cup {[job |-> TRUE, nodes |-> <<JSrc(1), JSrc(2), JNode(Two, ak[1], ak[2], "raw", sh)>>] :
+      ak \in {<<<<InA(2), InA(1)>>, <<>>>>, <<<<InA(1)>>, <<<<"z", InA(2)>>>>>>, <<<<>>, <<<<"k", InA(2)>>, <<"z", InA(1)>>>>>>}, sh \in {Absent, IntA(99), NoneA}}
+
 \* ======================================================================== reference semantics
 RECURSIVE JoinSeq(_, _)
 JoinSeq(s, sep) == IF s = <<>> THEN "" ELSE IF Len(s) = 1 THEN s[1] ELSE s[1] \o sep \o JoinSeq(Tail(s), sep)
@@ -139,6 +161,7 @@ Name(j) == "n" \o ToString(j)
 Label(c, j) == IF c.nodes[j].fn = "" THEN Name(j) ELSE c.nodes[j].fn      \* __name__ of the callable of node j
 \* the positional arguments as fluent.Node completes them: inputs that args does not mention are appended in input order
 Mentioned(nd) == {nd.args[k].i : k \in {k \in DOMAIN nd.args : nd.args[k].t = "in"}}
+                 \cup {nd.kwargs[k][2].i : k \in {k \in DOMAIN nd.kwargs : nd.kwargs[k][2].t = "in"}}      \* (job cases only)
 FinalArgs(nd) == nd.args \o [m \in 1..Cardinality((1..Len(nd.inputs)) \ Mentioned(nd)) |->
                                InA(SetToSortSeq((1..Len(nd.inputs)) \ Mentioned(nd), LAMBDA x, y : x < y)[m])]
 PosOfInput(nd, k) == CHOOSE p \in DOMAIN FinalArgs(nd) : FinalArgs(nd)[p].t = "in" /\ FinalArgs(nd)[p].i = k
@@ -180,14 +203,15 @@ Post(c, r) ==
       nEdges == Cardinality({p \in (1..n) \X (1..MaxIn) : p[2] <= Len(c.nodes[p[1]].inputs)})
       StaticPos(j) == {p \in DOMAIN FinalArgs(c.nodes[j]) : FinalArgs(c.nodes[j])[p].t # "in"}
       structOK == {t.name : t \in SetOf(r.tasks)} = {nm(j) : j \in 1..n} /\ Len(r.tasks) = n /\ Cardinality({nm(j) : j \in 1..n}) = n
+      isJob == "job" \in DOMAIN c       \* a hand-built job: its structure is the harness' own, only the run is judged
       good == {j \in 1..n : Reached(c, j) /\ ~Mismatch(c, j)}
       DS(j) == {d \in SetOf(r.datasets) : d[1] = nm(j)}
   IN
   IF ~structOK THEN {"tasks_are_not_the_nodes"}
-  ELSE (IF SetOf(r.edges) = expEdges /\ Len(r.edges) = nEdges THEN {} ELSE {"edges_are_not_the_inputs"})
+  ELSE (IF isJob \/ (SetOf(r.edges) = expEdges /\ Len(r.edges) = nEdges) THEN {} ELSE {"edges_are_not_the_inputs"})
   \cup (IF \A j \in 1..n : SetOf(task(j).outputs) = SetOf(r.declared[j]) /\ Len(task(j).outputs) = c.nodes[j].nout /\ Len(r.declared[j]) = c.nodes[j].nout
         THEN {} ELSE {"outputs_are_not_the_declared"})
-  \cup (IF \A j \in 1..n :
+  \cup (IF isJob \/ \A j \in 1..n :
              /\ \A p \in StaticPos(j) : <<p - 1, Render(c, j, FinalArgs(c.nodes[j])[p])>> \in SetOf(task(j).static_ps)
              /\ \A e \in SetOf(task(j).static_ps) : (e[1] + 1) \in DOMAIN FinalArgs(c.nodes[j])
                                                     /\ ((e[1] + 1) \in StaticPos(j) => e[2] = Render(c, j, FinalArgs(c.nodes[j])[e[1] + 1]))
@@ -211,7 +235,7 @@ Post(c, r) ==
   \cup (IF \A j \in good : nm(j) \notin SetOf(r.failures) THEN {} ELSE {"task_failure_without_cause"})
 
 \* ======================================================================== the two TLC passes
-Generate == JsonSerialize(IOEnv.CASES_FILE, SetToSeq(BindCases) \o SetToSeq(OutCases) \o SetToSeq(FalsyCases) \o SetToSeq(HandCases) \o SetToSeq(SharedFnCases))
+Generate == JsonSerialize(IOEnv.CASES_FILE, SetToSeq(BindCases) \o SetToSeq(OutCases) \o SetToSeq(FalsyCases) \o SetToSeq(HandCases) \o SetToSeq(SharedFnCases) \o SetToSeq(JobCases))
 Judge ==
   LET cs == JsonDeserialize(IOEnv.CASES_FILE)
       rs == JsonDeserialize(IOEnv.RESULTS_FILE)
